@@ -61,7 +61,27 @@ func eqInt(a, b Int) Bool {
 	return Bool{T: &Term{S: "(= " + as + " " + bs + ")"}}
 }
 
+// decimalVsFloat: is the decimal text of the int64 the %g / %v text of the
+// float?  Below 1e21 shortest float formatting prints an integral value
+// without exponent or fraction, so the texts agree exactly when the float is
+// integral, is not -0 and has the integer's value.
+func decimalVsFloat(d, f *Opaque) Bool {
+	if d.I.W != 64 || !d.I.S {
+		panic(inconclusive{"comparison of a formatted unsigned/narrow integer with a formatted float"})
+	}
+	x, i := f.F.term().S, d.I.term().S
+	lim := fpLit(9223372036854775808.0)
+	return mkBoolT(&Term{S: fmt.Sprintf("(and (not (fp.isNaN %s)) (not (fp.isInfinite %s)) (fp.eq %s (fp.roundToIntegral RTZ %s)) (fp.lt (fp.abs %s) %s) (not (and (fp.isZero %s) (fp.isNegative %s))) (= ((_ fp.to_sbv 64) RTZ %s) %s))", x, x, x, x, x, lim, x, x, x, i)})
+}
+
 func opaqueEq(a, b *Opaque) Bool {
+	isF := func(k string) bool { return k == "g" || k == "v" }
+	if a.Kind == "d" && isF(b.Kind) {
+		return decimalVsFloat(a, b)
+	}
+	if b.Kind == "d" && isF(a.Kind) {
+		return decimalVsFloat(b, a)
+	}
 	if a.Kind != b.Kind {
 		panic(inconclusive{"comparison of differently formatted opaque string pieces"})
 	}
